@@ -24,7 +24,7 @@ KEY_FORMS = ["name", "dotted", "tuple", "chain", "rel_dotted", "rel_tuple"]
 
 
 class Node:
-    __slots__ = ("kind", "uid", "name", "children", "tstr", "tobj", "parent")
+    __slots__ = ("kind", "uid", "name", "children", "tstr", "tobj", "parent", "pyi")
 
     def __init__(self, kind, uid, name):
         self.kind = kind
@@ -34,6 +34,7 @@ class Node:
         self.tstr = None  # alias: target path given as string
         self.tobj = None  # alias: uid of object target (as constructed / last retargeted), None if unresolved
         self.parent = None
+        self.pyi = False  # module loaded from a stubs file
 
 
 class Model:
@@ -106,6 +107,8 @@ def _gen_value(rng, model, container_path, swarm):
         return {"detached": rng.randrange(8)}
     if at_root:
         name = rng.choice(TOPS + ["a"])
+        if swarm.get("stub_modules") and rng.random() < 0.4:
+            return {"new": "module", "name": name, "pyi": rng.random() < 0.6, "filled": True}
         return {"new": "module", "name": name}
     name = rng.choice(NAMES)
     if r < swarm["p_detached"] + swarm["p_alias"]:
@@ -117,6 +120,11 @@ def _gen_value(rng, model, container_path, swarm):
         return {"new": "alias", "name": name, "tobj": _gen_path(rng, model, non_alias=rng.random() < 0.8)}
     kind = rng.choice(KINDS[1:] if rng.random() < 0.8 else KINDS)
     spec = {"new": kind, "name": name}
+    if swarm.get("stub_modules") and rng.random() < 0.35:
+        # a module read from a .pyi file, with a few members: set_member merges it with a regular module of that name
+        return {"new": "module", "name": name, "pyi": True, "filled": True}
+    if kind == "module" and swarm.get("stub_modules") and rng.random() < 0.5:
+        spec["filled"] = True  # a regular module that already has members
     if kind == "class" and swarm.get("inheritance") and rng.random() < 0.6:
         classes = [list(p) for p, n in model.walk() if n.kind == "class" and list(p) != container_path + [name]]
         if classes:
@@ -183,6 +191,7 @@ def generate(rng, opts):
         "producer_only": rng.random() < 0.3,
         "preparent": rng.random() < 0.5,
         "inheritance": rng.random() < 0.4,
+        "stub_modules": rng.random() < 0.3,
     }
     if opts.get("no_moves"):
         swarm["p_detached"] = 0.0
@@ -300,7 +309,7 @@ class Executor:
                 else:
                     real = g.Alias(name, node.tstr, **kw)
             elif kind == "module":
-                real = g.Module(name, filepath=Path(f"/nonexistent/u{node.uid}/{name}.py"), **kw)
+                real = g.Module(name, filepath=Path(f"/nonexistent/u{node.uid}/{name}.{'pyi' if spec.get('pyi') else 'py'}"), **kw)
             elif kind == "class":
                 real = g.Class(name, bases=list(spec.get("bases", [])), **kw)
                 if spec.get("bases"):
@@ -313,7 +322,35 @@ class Executor:
                 real.aliases = _RecDict()
             self.objs[node.uid] = real
             self.uids[id(real)] = node.uid
+        if kind == "module":
+            node.pyi = bool(spec.get("pyi"))
+            if spec.get("filled"):
+                self._fill_module(node, real)
+                tags.append("filled-stub-module" if node.pyi else "filled-module")
         return node, real, tags
+
+    def _fill_module(self, node, real):
+        """Give a fresh module the members {a: function, b: class {c: attribute}} (model and real, built with the API)."""
+        m = self.model
+        specs = [("a", "function", node), ("b", "class", node)]
+        made = {}
+        for name, kind, parent in specs + [("c", "attribute", None)]:
+            parent = parent if parent is not None else made["b"][0]
+            child = Node(kind, m.next_uid, name)
+            m.next_uid += 1
+            child.parent = parent
+            parent.children[name] = child
+            made[name] = (child, None)
+            if not self.model_only:
+                g = self.g
+                cls = {"function": g.Function, "class": g.Class, "attribute": g.Attribute}[kind]
+                robj = cls(name)
+                robj.aliases = _RecDict()
+                rparent = real if parent is node else made["b"][1]
+                rparent.set_member(name, robj)
+                self.objs[child.uid] = robj
+                self.uids[id(robj)] = child.uid
+                made[name] = (child, robj)
 
     # -- keys ------------------------------------------------------------------------------------
 
@@ -360,7 +397,42 @@ class Executor:
             return
         old = container.children.get(node.name) if container is not None else None
 
+        # set_member merges a module with a stubs module of the same name (implicit .pyi support): the stubs
+        # module's own members move into the regular one, which keeps (or takes) the slot; item assignment does not
+        merged_into = stubs = None
+        if expect == "ok" and old is not None and old is not node and old.kind == "module" and node.kind == "module" and op["api"] == "set_member" and (old.pyi or node.pyi):
+            merged_into, stubs = (node, old) if old.pyi else (old, node)
+            if _merge_meets_alias(merged_into, stubs):
+                if ctx:
+                    ctx.log("skip", "stub merge would pass through an alias")
+                    ctx.probe("stub-merge-through-alias-skipped")
+                return
+
+        def _merge_children(regular, stubs_node):
+            for cname, child in list(stubs_node.children.items()):
+                mine = regular.children.get(cname)
+                if mine is None:
+                    del stubs_node.children[cname]
+                    regular.children[cname] = child
+                    child.parent = regular
+                    for _, n in [((), child), *m.walk(child, ())]:
+                        if n.kind == "alias":
+                            self.moved_inside.add(n.uid)
+                elif mine.kind == child.kind and mine.kind in ("class", "module"):
+                    _merge_children(mine, child)
+
         def apply_model():
+            if merged_into is not None:
+                _merge_children(merged_into, stubs)
+                # what is left of the stubs module is dropped: it is not a value later operations may re-insert
+                if stubs in m.detached:
+                    m.detached.remove(stubs)
+                if merged_into is node:
+                    if node in m.detached:
+                        m.detached.remove(node)
+                    container.children[node.name] = node
+                    node.parent = container
+                return
             if "reinsert" in tags:
                 for _, n in m.walk(node, ()):
                     if n.kind == "alias":
@@ -418,8 +490,9 @@ class Executor:
             ctx.probe("replacement-by-alias-with-watchers")
         elif expect == "ok" and exc is None and watchers:
             new_path = ".".join(path)
+            final_real = real if merged_into is None else self.objs[merged_into.uid]
             for p, a in watchers:
-                if a._target is not real:
+                if a._target is not final_real:
                     # set_member finds the aliases to retarget in the replaced member's `aliases`: an alias whose slot
                     # there was taken over later by a stale alias object of the same path (known finding KF2) is missed
                     t2 = list(alltags)
@@ -813,6 +886,20 @@ class Executor:
                     yield from rec(mem, (*path, name))
 
         yield from rec(self.coll, ())
+
+
+def _merge_meets_alias(regular, stubs):
+    """The merge recurses into same-named classes/modules; when the regular side holds an alias where the stubs
+    hold something, griffe merges into whatever the alias resolves to - resolution (C06) decides, not modelled."""
+    for cname, child in stubs.children.items():
+        mine = regular.children.get(cname)
+        if mine is None:
+            continue
+        if mine.kind == "alias" and child.kind != "alias":
+            return True
+        if mine.kind == child.kind and mine.kind in ("class", "module") and _merge_meets_alias(mine, child):
+            return True
+    return False
 
 
 def _under(p, path):
